@@ -95,7 +95,8 @@ func getPair(c caseA) (*pair, error) {
 	if err != nil {
 		return nil, err
 	}
-	direct, err := gw.StartProc(gw.Config{SB: sbE})
+	// both endpoints have a versions store: a bucket whose versioning the program enables behaves accordingly on both sides
+	direct, err := gw.StartProc(gw.Config{SB: sbE, Versioning: true})
 	if err != nil {
 		return nil, err
 	}
@@ -103,7 +104,7 @@ func getPair(c caseA) (*pair, error) {
 	if err != nil {
 		return nil, err
 	}
-	cfg2 := gw.Config{SB: sbE2}
+	cfg2 := gw.Config{SB: sbE2, Versioning: true}
 	scheme := "http"
 	if c.TLS {
 		cert, key, err := selfSigned(sbE2.Area)
@@ -209,6 +210,9 @@ func (n *xnode) render(path []string, blankOwner bool) string {
 		sort.Strings(parts)
 	}
 	body := n.text + strings.Join(parts, "")
+	if (n.name == "VersionId" || n.name == "NextVersionIdMarker" || n.name == "VersionIdMarker" || n.name == "DeleteMarkerVersionId") && body != "" && body != "null" {
+		body = "VERSION-ID" // generated independently on the two sides
+	}
 	if body == "" {
 		return "" // an element without content reads the same as an absent one
 	}
@@ -265,6 +269,9 @@ func norm(r *s3c.Resp, ids []string, blankOwner ...bool) answer {
 			continue
 		}
 		a.Hdr[lk] = strings.Join(v, ",")
+		if lk == "x-amz-version-id" && a.Hdr[lk] != "null" && a.Hdr[lk] != "" {
+			a.Hdr[lk] = "VERSION-ID" // generated independently on the two sides; "null" and absence are compared
+		}
 	}
 	ct := r.Header.Get("Content-Type")
 	if strings.Contains(ct, "xml") || strings.HasPrefix(strings.TrimSpace(string(r.Body)), "<?xml") {
@@ -377,6 +384,15 @@ func step(s *side, bkt string, o op) ([]*s3c.Resp, error) {
 		return one(cl.Call("PUT", path, nil, withChecksums(metas[o.Meta%len(metas)], data), data))
 	case "get":
 		return one(cl.Call("GET", path, nil, nil, nil))
+	case "getnull":
+		// the version a key has without (or from before) versioning
+		return one(cl.Call("GET", path, s3c.Q("versionId", "null"), nil, nil))
+	case "headnull":
+		return one(cl.Call("HEAD", path, s3c.Q("versionId", "null"), nil, nil))
+	case "delnull":
+		return one(cl.Call("DELETE", path, s3c.Q("versionId", "null"), nil, nil))
+	case "versuspend":
+		return one(cl.Call("PUT", "/"+bkt, s3c.Q("versioning", ""), nil, []byte(`<VersioningConfiguration xmlns="http://s3.amazonaws.com/doc/2006-03-01/"><Status>Suspended</Status></VersioningConfiguration>`)))
 	case "getchk":
 		return one(cl.Call("GET", path, nil, []s3c.KV{{K: "x-amz-checksum-mode", V: "ENABLED"}}, nil))
 	case "missingget":
@@ -831,7 +847,7 @@ var strict bool // replay of an open finding: no narrowing
 
 var singleKinds = []string{"put", "put", "put", "put", "get", "get", "getchk", "head", "headchk", "headbucket", "range", "getif", "attrs", "copy", "copy", "delete", "delobjs",
 	"tagput", "tagget", "tagdel", "list", "list", "list1", "listbuckets", "policyput", "policyget", "policydel", "ownput", "ownget", "aclput", "aclget",
-	"verget", "verput", "listversions", "missingget", "missingbucket", "mkbucket", "mpulist", "mpulistparts", "mpucomplete", "mpuabort", "mpupart", "btagput", "btagget", "btagdel", "mpuseq", "mpuseq", "mpuseq", "restart"}
+	"verget", "verput", "listversions", "getnull", "headnull", "delnull", "versuspend", "verput", "missingget", "missingbucket", "mkbucket", "mpulist", "mpulistparts", "mpucomplete", "mpuabort", "mpupart", "btagput", "btagget", "btagdel", "mpuseq", "mpuseq", "mpuseq", "restart"}
 
 func opsGen(thorough bool) *rapid.Generator[[]op] {
 	return rapid.Custom(func(t *rapid.T) []op {
@@ -914,6 +930,12 @@ func TestC18A(t *testing.T) {
 		c.Owner = rapid.Bool().Draw(t, "owner")
 		c.ACLs = rapid.Bool().Draw(t, "acls")
 		c.Ops = opsGen(thorough).Draw(t, "ops")
+		versioned := false
+		if rapid.IntRange(0, 2).Draw(t, "versioned") == 0 {
+			// the whole history runs on a bucket that keeps versions: delete markers, null versions
+			c.Ops = append([]op{{Kind: "verput"}}, c.Ops...)
+			versioned = true
+		}
 		ev.Trace("C18A", c)
 		st, err := execA(c)
 		cls := []string{fmt.Sprintf("tls:%v", c.TLS), fmt.Sprintf("no_checksum:%v", c.NoChecksum)}
@@ -931,6 +953,9 @@ func TestC18A(t *testing.T) {
 		}
 		if st.Restart > 0 {
 			cls = append(cls, "proxy-restarted")
+		}
+		if versioned {
+			cls = append(cls, "versioned-bucket")
 		}
 		ev.Case(fmt.Sprintf("%v|%v|%v|%v|%+v", c.TLS, c.NoChecksum, c.Owner, c.ACLs, c.Ops), st.Multi > 0 || st.Paged > 0 || st.Meta > 0 || st.User > 0, cls...)
 		ev.Sample(cls[0], 1, c)
